@@ -64,8 +64,14 @@ func IsIgnoreDir(baseName string) bool {
 func SortLangeByCode(languageSummaries []processor.LanguageSummary) {
 	for _, langSummary := range languageSummaries {
 		files := langSummary.Files
+		// the line counter delivers the files in the order its workers finish: ties are
+		// broken by location, so that the table (and what is left of it after the cut at
+		// --top-size rows) is the same on every run
 		sort.Slice(files, func(i, j int) bool {
-			return files[i].Code > files[j].Code
+			if files[i].Code != files[j].Code {
+				return files[i].Code > files[j].Code
+			}
+			return files[i].Location < files[j].Location
 		})
 
 		langSummary.Files = files
